@@ -40,8 +40,6 @@ DevCfg(c) == [RefCfg(c) EXCEPT !.devHeadSkip = TRUE]
 (* ------------------------------------------------------------------------ *)
 SoftNames(st, kind) == LET x == Softs(st, kind) IN [i \in 1..Len(x) |-> x[i].name]
 HasSoft(st, name) == \E i \in 1..Len(st.soft) : st.soft[i].name = name
-UrlSoft(st) == HasSoft(st, "AbsTargetAuthorityAccepted") \/ HasSoft(st, "ConnectTargetUnchecked")
-               \/ HasSoft(st, "AbsTargetExotic") \/ HasSoft(st, "TargetCTLAccepted") \/ HasSoft(st, "TargetObsText")
 Hdrs(m) == [i \in 1..Len(m.fields) |-> <<m.fields[i][1], m.fields[i][2]>>]
 AsciiOnly(q) == AllB(q, LAMBDA b : b < 128)
 
@@ -166,8 +164,7 @@ JudgeParse(st, q, n, e, cfg) ==
     IF e.kind = "client" /\ Len(e.loopExc) > 0 THEN res("ConnForeignException", <<>>, <<e.loopExc[1]>>)
     ELSE IF Foreign(e) THEN
         \* C10 Total: only HttpProcessingError subclasses may leave feed_data / feed_eof
-        IF ForeignName(e) = "ValueError" /\ UrlSoft(st) THEN res("", <<"UrlValueErrorEscapes">>, <<>>)
-        ELSE res("ForeignException", <<>>, <<ForeignName(e)>>)
+        res("ForeignException", <<>>, <<ForeignName(e)>>)
     \* client connection: a parser error becomes a client error on the protocol and the transport is closed
     ELSE IF e.kind = "client" /\ e.exc # "" /\ ~e.closed THEN res("ClientErrorNotClosed", <<>>, <<e.exc>>)
     ELSE IF cc # "" THEN res(cc, <<>>, <<>>)
@@ -251,10 +248,6 @@ DispClause(st, R, D, i) ==
              ELSE DispClause(st, R, D, i + 1)
          ELSE "ExtraRequestDispatched"
 
-\* a target whose authority nobody validated: BaseRequest construction (url.host / url.port) raises
-\* inside RequestHandler.start(), the handler task dies, the connection is never answered nor closed
-KillerSoft(st) == HasSoft(st, "AbsTargetAuthorityAccepted") \/ HasSoft(st, "ConnectTargetUnchecked")
-                  \/ HasSoft(st, "AbsTargetExotic") \/ HasSoft(st, "TargetCTLAccepted")
 JudgeConn(st, q, n, e, cfg) ==
     LET fin == Final(st, n)
         R == FinalMsgs(st)
@@ -269,9 +262,7 @@ JudgeConn(st, q, n, e, cfg) ==
         res(b, d, f) == [bad |-> b, devs |-> d, drift |-> f]
         inBody == st.cur.delivered
     IN
-    IF Len(e.loopExc) > 0 THEN
-        IF e.loopExc[1] = "ValueError" /\ UrlSoft(st) THEN res("", <<"UrlValueErrorEscapes">>, <<>>)
-        ELSE res("ConnForeignException", <<>>, <<e.loopExc[1]>>)
+    IF Len(e.loopExc) > 0 THEN res("ConnForeignException", <<>>, <<e.loopExc[1]>>)
     ELSE IF Final(w, Len(e.written)) \in {"reject", "truncated", "undecided"}
         THEN res("ServerOutputMalformed", <<>>, <<w.reason>>)       \* what the server wrote is itself well-framed
     ELSE IF fin = "reject" /\ st.over /\ st.between /\ nerr = 0 THEN res("", <<"LimitByCallPosition">>, <<>>)
@@ -280,9 +271,7 @@ JudgeConn(st, q, n, e, cfg) ==
     ELSE IF fin = "reject" /\ nerr = 0 /\ ~e.closed /\ (PendingReject(st, q, n) \/ PendingOver(st, q, n, e, cfg))
         THEN res("", <<>>, <<"RejectPending">>)
     ELSE IF fin = "reject" THEN
-        IF ~e.closed THEN
-            IF KillerSoft(st) THEN res("", <<"BadAuthorityKillsHandler">>, <<>>)
-            ELSE res("MalformedNotClosed", <<>>, <<st.reason>>)
+        IF ~e.closed THEN res("MalformedNotClosed", <<>>, <<st.reason>>)
         ELSE IF nerr = 0 THEN res("MalformedNoErrorResponse", <<>>, <<st.reason>>)
         ELSE IF nerr > 1 THEN res("SeveralErrorResponses", <<>>, <<>>)
         ELSE IF lastCode < 400 THEN res("ResponseAfterError", <<>>, <<>>)
@@ -297,8 +286,7 @@ JudgeConn(st, q, n, e, cfg) ==
             ELSE IF st.phase = "tunnel" THEN res("", <<>>, <<"tunnel">>)
             ELSE res("ValidAnsweredWithError", <<>>, <<>>)
         ELSE IF Len(D) < Len(R) /\ ~(st.phase = "tunnel") THEN
-            IF (KillerSoft(st) \/ (e.taskExc # "" /\ R[Len(D) + 1].target[1] # 47)) /\ Len(codes) = Len(D) /\ ~e.closed
-            THEN res("", <<"BadAuthorityKillsHandler">>, <<>>)
+            IF e.taskExc # "" THEN res("HandlerTaskDied", <<>>, <<e.taskExc>>)    \* request accepted by the parser, never answered
             ELSE IF Len(st.soft) > 0 THEN res("", <<>>, <<"SoftZone">>)
             ELSE res("RequestNotDispatched", <<>>, <<>>)
         ELSE IF Len(codes) < Len(R) /\ ~(st.phase = "tunnel") THEN
